@@ -1288,6 +1288,7 @@ class Interp:
         u.elem = out[0] if out else None
         u.comp_iter = self._last_comp_iter
         u.comp_site = self.site(node)
+        u.source = getattr(self, "_last_comp_src", None)
         return u
 
     def ev_SetComp(self, node):
@@ -1894,6 +1895,8 @@ class Interp:
         if sw is None and dw == 32 and (not isinstance(src, VTens) or src.obj.valkind not in ("bool", "index", "perm", "str")):
             sw = 64  # a width that was not tracked: the library's data and parameters are float64 (stated assumption)
         exact = isinstance(src, VTens) and (src.obj.valkind in ("bern", "bool") or _is_bern(term))  # 0 / 1 values: exact in every float width
+        if not exact and term is not None and not getattr(dst, "view", None) and dst.obj.term is not None and dst.obj.term == term:
+            exact = True  # the tensor's own values come back (widened on the way): nothing to round
         if dw == 32 and sw == 64 and not exact:
             self.narrowings.append((self.site(node), "float64 values are written into a float32 tensor (%s)" % detail, src.obj))
         elif dw == 64 and sw == 32 and term is not None and hasattr(term, "is_const") and not term.is_const() and src.obj.origin == "fresh":
